@@ -638,6 +638,45 @@ fn main() {
         }
         o.evaluations += all_urls.len() as u64;
     }
+    // registrations that the syntactic scan of type_urls.rs does not see (macro-generated impls)
+    {
+        use shims::NoUrl;
+        let _ = <shims::Probe<()> as NoUrl>::url;
+    }
+    let listed: BTreeSet<&str> = shims::TYPE_URL_PATHS.iter().map(|x| x.0).collect();
+    let mut hidden = 0u64;
+    for (path, url) in shims::registered_urls() {
+        o.evaluations += 1;
+        let Some(url) = url else { continue };
+        if listed.contains(path) {
+            continue;
+        }
+        hidden += 1;
+        let (mut pkg, name) = proto_package_of(path);
+        if let Some(j) = db.by_path.get(path) {
+            let full = &schema.messages[*j].full_name;
+            if let Some(p) = full.strip_suffix(&format!(".{name}")) {
+                pkg = p.to_string();
+            }
+        }
+        let mut proto_name = name.clone();
+        if let Some(j) = db.by_path.get(path) {
+            let d = &schema.messages[*j].doc_name;
+            if d.eq_ignore_ascii_case(&name) && *d != name {
+                proto_name = d.clone();
+            }
+        }
+        let want = format!("/{pkg}.{proto_name}");
+        if url != want {
+            viol(&mut o, "type_url.not_canonical", format!("TYPE_URL of {path} (registered through a macro or outside the scanned impls) is {url:?}, fully-qualified protobuf name gives {want:?}"), json!({"type": path, "declared": url, "expected": want}));
+        }
+        if all_urls.contains(&url) {
+            viol(&mut o, "type_url.duplicate", format!("type url {url} of {path} is already registered for another type"), json!({"url": url}));
+        }
+    }
+    if hidden > 0 {
+        o.notes.push(format!("{hidden} TypeUrl registrations are not written out as impl blocks in type_urls.rs; found through trait resolution"));
+    }
     let mut seen_urls = BTreeSet::new();
     for u in &all_urls {
         if !seen_urls.insert(*u) {
